@@ -1446,6 +1446,11 @@ class Interp:
             return ("is_empty", self.argval(path, a0))
         if p in SPLITTERS:
             return self.split(ctx, path, ce, p, name, args, site, blk, dest_ty)
+        if p == "core::slice::<impl [T]>::first" and is_ptr(a0):
+            # Some(&x[0]) iff the slice is not empty
+            loc = a0[1]
+            self.event(path, "split", name, ce, args, site, blk, dest_ty, ctx, {"how": "first-elem", "n": 1, "target": loc, "wrap": "opt"})
+            return ("split", ("ptr", ("IDX", loc, ("int", 0))), loc, 1, "opt", name)
         if p in ("core::ops::index::Index::index", "core::ops::index::IndexMut::index_mut"):
             return self.index(ctx, path, ce, name, args, site, blk, dest_ty)
         if p == "core::slice::<impl [T]>::copy_from_slice":
